@@ -146,7 +146,8 @@ HasRun(r) == "none" \notin DOMAIN r
 \* P(d): the largest total prefix width of a chain of nested blocks (from the DOM and the decorator strings)
 RECURSIVE PrefixDepth(_, _)
 PrefixDepthSeq(ns, ds) == FoldLeft(LAMBDA a, n : Max2(a, PrefixDepth(n, ds)), 0, ns)
-OlItems(n) == Cardinality({i \in 1..Len(n.c) : IsHtml(n.c[i], "li")})
+\* (an upper bound: stray content directly in the list may become an item of its own)
+OlItems(n) == Cardinality({i \in 1..Len(n.c) : n.c[i].k = "e" \/ (n.c[i].k = "t" /\ NonWs(n.c[i].s) # <<>>)})
 PrefixDepth(n, ds) ==
   IF n.k # "e" \/ Ignored(n) THEN 0
   ELSE LET inner == PrefixDepthSeq(n.c, ds)
@@ -220,6 +221,8 @@ P_C15(c) ==
                        ELSE Letters(AllOut(a.res)) = Letters(AllOut(b.res))
          /\ b.res.k = "ok" => \A i \in 1..Len(b.res.lines) : ~HasRef(LineCodes(b.res)[i])
          /\ ~HasLinkEl(dom) => SameResult(a, b)
+    \* raw_mode(false) after no_table_borders(): no option at all, and the borders stay off
+    [] opt = "rawoff" -> SameResult(a, b) /\ (b.res.k = "ok" => ~HasBox(b.res))
     [] opt = "nolinkwrap" -> (~HasLinkEl(dom) \/ ~CfgOf(a.cfg).footnotes) => SameResult(a, b)
     [] opt = "min_wrap" -> ~HasNestedBlock(dom) => SameResult(a, b)
     [] OTHER -> FALSE
@@ -672,7 +675,8 @@ P_C16(c) ==
         LET run == c.runs[i] IN
         (IsOk(run) /\ run.cfg.deco = "trivial") =>
            LET o == SelectSeq(Codes(AllOut(run.res)), LAMBDA k : ~IsWsCode(k) /\ ~IsBoxCode(k) /\ k # GV /\ k # STRIKE)
-               v == SelectSeq(NonWs(FlowTextSeq(Dom1(c, run))), LAMBDA k : k # GV /\ ~IsBoxCode(k) /\ k # STRIKE) IN
+               \* (characters without any width - C0 / DEL controls - are not visible and are dropped by the renderer)
+               v == SelectSeq(NonWs(SelectSeq(FlowTextSeq(Dom1(c, run)), LAMBDA x : CW(x) >= 0)), LAMBDA k : k # GV /\ ~IsBoxCode(k) /\ k # STRIKE) IN
            IF HasTable(Dom1(c, run)) /\ ~CfgOf(run.cfg).raw THEN BagOf(o) = BagOf(v) ELSE o = v
 
 (* ---- C01: rendering is total ----------------------------------------------------------------------- *)
